@@ -1024,11 +1024,17 @@ func writeEvidence(verif, prop, tier string, seed, nObl, nDis, nSmoke, nSmokeOK 
 	if tier == "thorough" {
 		cov["all_obligations"] = evs
 	}
+	level := "proof"
+	if len(fucs) == 0 {
+		// no function body was verified: every obligation of this run is a structural scan
+		level = "other"
+		cov["note"] = "every obligation of this property is discharged by a scan of the SSA / call graph of the real code (reference-walk completeness), not by an SMT proof"
+	}
 	ev := map[string]any{
 		"property_id": prop,
 		"tier":        tier,
 		"seed":        seed,
-		"level":       "proof",
+		"level":       level,
 		"coverage":    cov,
 		"assumptions": as,
 		"wall_s":      wall,
